@@ -217,7 +217,49 @@ def rule_r5(ctx):
     ctx.r.floor(rid, len(ws), 6, "stores to the close flags")
 
 
-RULES = [rule_r1, rule_r2, rule_r3, rule_r4, rule_r5]
+def rule_r6(ctx, rid="C11.R6"):
+    ctx.r.rule(rid, "the close decision is never dropped: wherever close_when_flushed is cleared, will_close is set on every path that follows (or the teardown runs); on I/O errors the read handler tears the channel down itself")
+    p = ctx.p
+    chan = p.cls("channel.HTTPChannel")
+    n = 0
+    for a in accesses(p, "close_when_flushed", [chan]):
+        if a.kind != "write" or not isinstance(a.stmt, ast.Assign) or not (isinstance(a.stmt.value, ast.Constant) and a.stmt.value.value is False):
+            continue
+        if a.func.name == "__init__":
+            continue
+        n += 1
+        g = cfg_of(a.func)
+        marks = [x for x in g.nodes if x.kind == "stmt" and isinstance(x.ast, ast.Assign) and any(dotted(t) == "self.will_close" for t in x.ast.targets)
+                 and isinstance(x.ast.value, ast.Constant) and x.ast.value.value is True]
+        marks += [x for x, c in find_calls(g, lambda c: dotted(c.func) == "self.handle_close")]
+        bad = None
+        for nd in g.nodes_of(a.stmt):
+            pth = g.path(nd, g.exit, avoid=marks, follow_exc=False)
+            if pth is not None:
+                bad = pth
+        if bad is None:
+            ctx.r.ok(rid, "%s: clearing close_when_flushed is always followed by will_close = True" % a.func.name, a.loc)
+        else:
+            ctx.r.violation(rid, key_of(a.func, None, "close-decision-dropped"),
+                            "%s clears close_when_flushed on a path that does not set will_close (%s): once the rest is flushed the channel reads and serves again although the connection was to be closed"
+                            % (a.func.qual, g.describe_path(bad)), a.loc)
+    ctx.r.floor(rid, n, 1, "places where close_when_flushed is cleared")
+    # a failing recv tears down at once (only handle_close clears `connected`, the one guard of an already queued task)
+    hr = p.func("channel.HTTPChannel.handle_read")
+    gh = cfg_of(hr)
+    hs = [x for x in gh.nodes if x.kind == "handler"]
+    for h in hs:
+        closes = [x for x, c in find_calls(gh, lambda c: dotted(c.func) == "self.handle_close")]
+        pth = gh.path(h, gh.exit, avoid=closes, follow_exc=False)
+        if pth is None:
+            ctx.r.ok(rid, "handle_read: an I/O error tears the channel down in the handler", hr.loc(h.ast))
+        else:
+            ctx.r.violation(rid, key_of(hr, None, "read-error-no-teardown"),
+                            "handle_read's `except %s` can return without handle_close(): `connected` stays true and a request that is already queued is still executed after the connection failed"
+                            % (norm(h.ast.type) if h.ast.type is not None else ""), hr.loc(h.ast))
+
+
+RULES = [rule_r1, rule_r2, rule_r3, rule_r4, rule_r5, rule_r6]
 
 from ..selftest import M, T, V  # noqa: E402
 
